@@ -36,10 +36,12 @@ class State:
         self.alias: dict[str, str] = {}
         self.total: Lin = Lin()  # total received, as a linear form (T symbol + read atoms)
         self.reads: dict[str, str] = {}  # name -> read atom bound to it (for emptiness tests)
+        self.nreads = 0  # socket reads made on this path so far: the k-th read of any path is the atom rd#k
 
     def copy(self):
         s = State()
         s.ints, s.lens, s.alias, s.total, s.reads = dict(self.ints), dict(self.lens), dict(self.alias), Lin(self.total), dict(self.reads)
+        s.nreads = self.nreads
         return s
 
     def subst(self, atom, value: Lin):
@@ -111,15 +113,21 @@ class RecvModel:
         return None
 
     # -- statements ----------------------------------------------------------------------------
-    def fresh(self, node) -> str:
-        return f"rd@{getattr(node, 'lineno', 0)}:{getattr(node, 'col_offset', 0)}"
+    def fresh(self, node, st: "State | None" = None) -> str:
+        # named by the order of the reads on the path, not by the site: two branches that each read once
+        # (`recv(remaining)` for large reads, `recv(min(remaining, 4096))` otherwise) received "the k-th read's
+        # bytes" either way, so their states can be joined
+        if st is None:
+            return f"rd@{getattr(node, 'lineno', 0)}:{getattr(node, 'col_offset', 0)}"
+        st.nreads += 1
+        return f"rd#{st.nreads}"
 
     def assign(self, tgt: str, val, st: State, node):
         val = strip_cast(val)
         st.reads.pop(tgt, None)
         st.alias.pop(tgt, None)
         if self.is_read(val):
-            a = self.fresh(node)
+            a = self.fresh(node, st)
             st.total = st.total.add(Lin.atom(a))
             st.reads[tgt] = a
             if val.func.attr == "recv":
@@ -197,13 +205,13 @@ class RecvModel:
                 nm = st.alias.get(c.func.value.id, c.func.value.id)
                 add = self.len_of(c.args[0], st)
                 if self.is_read(c.args[0]):
-                    a = self.fresh(s)
+                    a = self.fresh(s, st)
                     st.total = st.total.add(Lin.atom(a))
                     add = Lin.atom(a)
                 cur = st.lens.get(nm)
                 st.lens[nm] = None if add is None or cur is None else cur.add(add)
             elif self.is_read(c):
-                a = self.fresh(s)
+                a = self.fresh(s, st)
                 st.total = st.total.add(Lin.atom(a))
             return [(st, "next")]
         if isinstance(s, ast.Return):
